@@ -491,7 +491,7 @@ fn records(section: &str, tier: Tier) -> Vec<String> {
         }
         "Colours" => {
             for k in ["Combo1", "Combo2", "Combo", "SliderBorder", "SliderTrackOverride", "combo1", ""] {
-                for v in ["1,2,3", "4,5,6,7", "255,255,255,0", "256,0,0", "-1,0,0", "1,2", "1,2,3,4,5", " 8 , 9 , 10 ", "1,2,x", "", "1.5,2,3", "1,2,3 // c"] {
+                for v in ["1,2,3", "4,5,6,7", "255,255,255,0", "1,2,3,256", "1,2,3,", "1,2,3,x", "1,2,3,-1", "1,2,3,1.0", "256,0,0", "-1,0,0", "1,2", "1,2,3,4,5", " 8 , 9 , 10 ", "1,2,x", "", "1.5,2,3", "1,2,3 // c"] {
                     out.push(format!("{k} : {v}"));
                 }
             }
